@@ -379,6 +379,16 @@ pub fn build_graph(spec: &GraphSpec) -> FnGraph<TestFn> {
     b.build()
 }
 
+/// Another, small graph value (a -> b, c): the target of `clone_from` copies.
+pub fn small_other_graph() -> FnGraph<TestFn> {
+    let mut b = FnGraphBuilder::new();
+    let x = b.add_fn(TestFn { id: 0, reads: vec![], writes: vec![0] });
+    let y = b.add_fn(TestFn { id: 1, reads: vec![0], writes: vec![] });
+    let _ = b.add_fn(TestFn { id: 2, reads: vec![], writes: vec![] });
+    let _ = b.add_logic_edge(x, y);
+    b.build()
+}
+
 /// Insert the spec's functions the way `add_mode` says (single or batch calls).
 pub fn add_all_fns(b: &mut FnGraphBuilder<TestFn>, spec: &GraphSpec) -> Vec<FnId> {
     let fns = &spec.fns;
